@@ -1,6 +1,6 @@
 (* Observe/Run.v -- evaluators for the correspondence cases written by harness/c08.go *)
 From Coq Require Import ZArith NArith List Bool.
-From GoCoap Require Import Base.Cases Base.Bytes Observe.Model Observe.Spec.
+From GoCoap Require Import Base.Cases Base.Bytes Observe.Model Observe.Spec Observe.BwModel Observe.BwSpec.
 Import ListNotations.
 Open Scope Z_scope.
 
@@ -13,9 +13,14 @@ Inductive case :=
    wire = false: messages handed to observation.Handler.Handle directly.
    outs: what was observed per event; livemask: per registration, is its token's key in the
    table at the end; pending: registrations whose Observe() had not returned at the end *)
-| Hist (wire : bool) (evs : list ev) (outs : list (list out)) (livemask : list bool) (pending : list nat).
+| Hist (wire : bool) (evs : list ev) (outs : list (list out)) (livemask : list bool) (pending : list nat)
+(* a wire-level history on a udp/client.Conn with block-wise transfer enabled (notifications may be
+   block-wise): per event what the application saw (outs) and what the block-wise layer did (acts:
+   the GET written for the next block, an error reported); livemask / pending as above *)
+| BHist (evs : list bev) (outs : list (list out)) (acts : list (list bact)) (livemask : list bool) (pending : list nat).
 
 Definition M := mkMsg.
+Definition W := mkW.
 
 Definition tab_of (f : Z -> bool) (new0 : Z) (n : N) : Z :=
   snd (N.iter n (fun '(i, acc) => (i + 1, if f (new0 + i) then Z.lor acc (Z.shiftl 1 i) else acc)) (0, 0)).
@@ -36,6 +41,14 @@ Definition out_eqb (a b : out) : bool :=
   | _, _ => false
   end.
 
+Definition bact_eqb (a b : bact) : bool :=
+  match a, b with
+  | BGet t z n, BGet t' z' n' => bytes_eqb t t' && (z =? z') && (n =? n')
+  | BErr, BErr => true
+  | BOther, BOther => true
+  | _, _ => false
+  end.
+
 Definition dec_of (wire : bool) : msg -> option Z := if wire then observe_wire else observe_direct.
 
 (* registrations without a RegRet in the trace *)
@@ -52,6 +65,13 @@ Definition agrees (c : case) : bool :=
       list_eqb (list_eqb out_eqb) (map snd tr) outs &&
       list_eqb Bool.eqb (map (live s) (regs s)) lm &&
       list_eqb Nat.eqb (pending_of tr (length (regs s))) pend
+  | BHist evs outs acts lm pend =>
+      let '(s, tr) := bw_run evs in
+      let otr := obs_trace tr in
+      list_eqb (list_eqb out_eqb) (map snd otr) outs &&
+      list_eqb (list_eqb bact_eqb) (map snd tr) acts &&
+      list_eqb Bool.eqb (map (live (b_o s)) (regs (b_o s))) lm &&
+      list_eqb Nat.eqb (pending_of otr (length (regs (b_o s)))) pend
   end.
 
 (* The recorded finding F18 is: the observation table is keyed by CRC-64 of the token, so two tokens with the
@@ -103,6 +123,8 @@ Definition pclass (c : case) : N :=
         if N.eqb c 0 then (if displaced (combine evs outs) lm then 9%N else 0%N)
         else if N.eqb c 2 && only_crc_collisions (combine evs outs) then 7%N else c
       else 6%N
+  | BHist evs outs acts lm pend =>
+      if Nat.eqb (length evs) (length outs) then c08b_class (combine evs outs) else 6%N
   end.
 
 Definition mismatches (cs : list case) : list N := bad_indices (fun c => negb (agrees c)) cs.
